@@ -129,7 +129,7 @@ def gen_case(rng, forced=None):
     if "batches" in forced:
         batches = forced["batches"]
     tols = forced.get("tols", [rng.choice(TOLS) for _ in range(n)])
-    fams = FAMILIES if rng.random() < 0.85 else ["huge", "const", "hash"]
+    fams = FAMILIES if rng.random() < 0.93 else ["huge", "const", "hash"]
     objs = forced.get("objs", [{"kind": rng.choice(fams), "a": [rng.choice(COEF) for _ in range(n)], "b": rng.choice(COEF)}
                                for _ in range(m)])
     again = [[] for _ in batches]
@@ -541,9 +541,9 @@ def run(ctx):
     ]
     for f in corpus:
         add(gen_case(rng, dict(f, criteria=["minimize", "maximize"][:f["m"]], ret_numpy=False)))
-    for _ in range(ctx.pick(450, 9000)):
+    for _ in range(ctx.pick(450, 6000)):
         add(gen_case(rng))
-    for _ in range(ctx.pick(12, 150)):
+    for _ in range(ctx.pick(12, 100)):
         add(gen_algo_case(rng))
     Individual.calc_signed_costs = orig_calc
     logging.disable(logging.NOTSET)
